@@ -56,17 +56,20 @@ Fixpoint pool_rates (den : dec) (bals : list Z) : outcome (list dec) :=
               do rs <- pool_rates den r; Ok (c :: rs)
   end.
 (* one iteration of the loop over pools; [sp_weight] is the summed weight of the registered claimers *)
-Definition spend_pool_step (now : Z) (p : spool) : outcome spool :=
+(* [guard]: does the end-blocker skip a pool whose denominator period*weight is not positive?  The flag
+   is REGENERATED from the working tree (Gen/PanicSites.v spend_endblock_guarded): false on the pinned tree *)
+Definition spend_pool_step (guard : bool) (now : Z) (p : spool) : outcome spool :=
   if negb p.(sp_dyn) then Ok p
   else if now <? wrap64 (p.(sp_period) + p.(sp_last)) then Ok p      (* uint64 addition wraps *)
   else if p.(sp_weight) =? 0 then Ok p
   else do den <- relabel (dmul (dec_of_int (as_int64 p.(sp_period))) p.(sp_weight));   (* NewDec(int64(period)).Mul(totalWeight) *)
+       if guard && (den <=? 0) then Ok p else
        do _ <- pool_rates den p.(sp_bals);
        Ok (mkSpool p.(sp_dyn) p.(sp_period) now p.(sp_weight) p.(sp_bals)).
-Fixpoint spend_endblock (now : Z) (ps : list spool) : outcome (list spool) :=
+Fixpoint spend_endblock (guard : bool) (now : Z) (ps : list spool) : outcome (list spool) :=
   match ps with
   | [] => Ok []
-  | p :: r => do p' <- spend_pool_step now p; do r' <- spend_endblock now r; Ok (p' :: r')
+  | p :: r => do p' <- spend_pool_step guard now p; do r' <- spend_endblock guard now r; Ok (p' :: r')
   end.
 
 (* histories of the spending module as far as the end-blocker is concerned *)
@@ -77,15 +80,15 @@ Inductive sop :=
 | SEnd (now : Z).                                    (* EndBlock at block time now *)
 Fixpoint upd {A} (i : nat) (f : A -> A) (l : list A) : list A :=
   match l, i with [], _ => [] | x :: r, O => f x :: r | x :: r, S k => x :: upd k f r end.
-Definition sstep (s : outcome (list spool)) (o : sop) : outcome (list spool) :=
+Definition sstep (guard : bool) (s : outcome (list spool)) (o : sop) : outcome (list spool) :=
   do ps <- s;
   match o with
   | SCreate dyn period now => Ok (ps ++ [mkSpool dyn period now 0 []])
   | SRegister i w => Ok (upd i (fun p => mkSpool p.(sp_dyn) p.(sp_period) p.(sp_last) (p.(sp_weight) + w) p.(sp_bals)) ps)
   | SDeposit i amt => Ok (upd i (fun p => mkSpool p.(sp_dyn) p.(sp_period) p.(sp_last) p.(sp_weight) (amt :: p.(sp_bals))) ps)
-  | SEnd now => spend_endblock now ps
+  | SEnd now => spend_endblock guard now ps
   end.
-Definition srun (ops : list sop) : outcome (list spool) := fold_left sstep ops (Ok []).
+Definition srun (guard : bool) (ops : list sop) : outcome (list spool) := fold_left (sstep guard) ops (Ok []).
 (* the guard that makes the end-blocker safe: what a fixed CreateSpendingPool / Register / Deposit admit *)
 Definition amt_bound : Z := 2 ^ 190.
 Definition sop_ok (o : sop) : bool :=
@@ -98,6 +101,11 @@ Definition sop_ok (o : sop) : bool :=
 Definition pool_safe (p : spool) : bool :=
   (negb p.(sp_dyn) || ((0 <? p.(sp_period)) && (p.(sp_period) <? two63)))
   && (0 <=? p.(sp_weight)) && (p.(sp_weight) <? 2 ^ 150)
+  && forallb (fun b => (0 <=? b) && (b <? amt_bound)) p.(sp_bals).
+
+(* magnitudes only (no sign / non-zero conditions): what every stored pool satisfies *)
+Definition pool_bounded (p : spool) : bool :=
+  (0 <=? p.(sp_period)) && (p.(sp_period) <? two64) && (Z.abs p.(sp_weight) <? 2 ^ 150)
   && forallb (fun b => (0 <=? b) && (b <? amt_bound)) p.(sp_bals).
 
 (* ------------------------------------------------------------------ proposal enactment (router.ApplyProposal) *)
@@ -185,10 +193,10 @@ Definition upgrade_begin (due processed instate has_handler skip : bool) : outco
 Record world := mkW { w_due : list (dec * gstate); w_val : vstate; w_pools : list spool }.
 Fixpoint gov_endblock (l : list (dec * gstate)) : outcome unit :=
   match l with [] => Ok tt | (q, g) :: r => do _ <- gprocess q g; gov_endblock r end.
-Definition end_block (now : Z) (w : world) : outcome world :=
+Definition end_block (guard : bool) (now : Z) (w : world) : outcome world :=
   do _ <- gov_endblock w.(w_due);
   do v <- vend w.(w_val);
-  do ps <- spend_endblock now w.(w_pools);
+  do ps <- spend_endblock guard now w.(w_pools);
   Ok (mkW [] v ps).
 (* SubmitProposal followed (later, on another state) by enactment *)
 Definition lifecycle {S} (handler : S -> outcome S) (s_submit s_enact : S) : option (outcome S) :=
